@@ -20,6 +20,7 @@ func init() {
 			"R3 every iteration that stores a client state also starts exactly the goroutine that runs that state and, on every path after the run returned, sends the same per-iteration key on a channel whose receiving case deletes the entry; " +
 			"R4 the entry of a key is deleted only in the select case that received that key from such a channel, every sender on these channels is the exit goroutine (after its run returned) or a case forwarding its received key, and the map is never cleared or replaced; " +
 			"R5 every nil return of the scan after a successful listing has completed the loop over the map that stops each client whose key is not in the set of listed keys (and only those), and every listed key enters that set; " +
+			"R7 every single-argument function the listing passes through before the start loop (and inside the listing helper) is the identity or a keyed de-duplication whose key includes every field of the manager's map key (Parent and ID), so a node keeps one entry per parent it appears under; " +
 			"R6 the stop channel of a client state is closed only inside sync.Once.Do of the same state, the manager's stop case stops every map value unless the map is empty, the main loop is left only with an empty map or in the guard-timer case, and the client state's run returns only after the stop request was received and forwarded to the client. " +
 			"Interleavings of store events with scans, construction from current points and the 5 s stop time-outs are not decided.",
 		Assumptions: []string{
@@ -42,6 +43,7 @@ func runC07(c *kit.Ctx) {
 	c07R4(c, m, c.Rule("R4", "single deleter, fed only by exit signals", 3))
 	c07R5(c, m, c.Rule("R5", "removal pass reached and exact", 3))
 	c07R6(c, m, c.Rule("R6", "stop idempotent and complete", 5))
+	c07R7(c, m, c.Rule("R7", "the listing keeps one entry per placement", 2))
 }
 
 func (m *cmModel) exitNames() string {
@@ -920,21 +922,11 @@ func c07R5(c *kit.Ctx, m *cmModel, r *kit.Rule) {
 			r.Ob(f, sto.stmt, "start loop", "the insertion happens in a loop over the listing").Undecided("the map store is not inside a range loop")
 			continue
 		}
-		// listing call: the call that defines the ranged variable
-		listVar := kit.ObjOf(info, sto.loop.X)
-		var listCall *ast.CallExpr
-		if listVar != nil && cmAssignCount(f, listVar) == 1 {
-			cmOwn(f.Body, func(n ast.Node) bool {
-				if as, ok := n.(*ast.AssignStmt); ok && len(as.Rhs) == 1 && len(as.Lhs) >= 1 && kit.ObjOf(info, as.Lhs[0]) == listVar {
-					if call, ok := ast.Unparen(as.Rhs[0]).(*ast.CallExpr); ok {
-						listCall = call
-					}
-				}
-				return true
-			})
-		}
+		// listing call: followed back from the ranged variable through single-argument functions (R7 judges those)
+		chain := c07ListingChain(f, sto.loop)
+		listCall := chain.listCall
 		if listCall == nil {
-			r.Ob(f, sto.loop, "listing", "the start loop ranges over the result of one listing call").Undecided("cannot find the single call that produces `%s`", f.Str(sto.loop.X))
+			r.Ob(f, sto.loop, "listing", "the start loop ranges over the result of one listing call").Undecided("%s", c07Nz(chain.undec, "cannot find the call that produces `"+f.Str(sto.loop.X)+"`"))
 			continue
 		}
 		// removal loop: range over the map whose body calls stop on the value
